@@ -400,7 +400,8 @@ def run_harness(h, scratch, logdir, playback=False):
     if os.path.isdir(template) and not os.path.exists(tdir):
         subprocess.call(["cp", "-a", template, tdir])
     # trace generation for concrete playback needs noticeably more memory
-    rc, timed_out, wall = run_proc(cmd, scratch, h.timeout + 120, h.mem * 2 + 4 if playback else h.mem, logpath)
+    rc, timed_out, wall = run_proc(cmd, scratch, (h.timeout * 3 + 600) if playback else (h.timeout + 120),
+                                   h.mem * 2 + 4 if playback else h.mem, logpath)
     text = open(logpath, errors="replace").read()
     shutil.rmtree(tdir, ignore_errors=True)
     res = parse_kani_log(text)
@@ -411,6 +412,9 @@ def run_harness(h, scratch, logdir, playback=False):
 # --------------------------------------------------------------------------
 # classification
 # --------------------------------------------------------------------------
+
+# stubs under which a counterexample cannot be replayed natively (see do_check)
+NO_NATIVE_REPLAY_STUBS = ("S5",)
 
 TAG_RE = re.compile(r"\[(C\d+(?:,C\d+)*)\]")
 UNWIND_RE = re.compile(r"unwinding assertion", re.I)
@@ -431,7 +435,7 @@ def is_harness_loc(chk):
 def classify(res, prop):
     """-> (status, details). status in pass | fail | inconclusive | other_fail"""
     h = res["harness"]
-    if res["timed_out"] or res["timed_out_kani"] and res["verdict"] is None:
+    if res["timed_out"] or (res["timed_out_kani"] and res["verdict"] is None) or "CBMC timed out" in res["text"]:
         return "inconclusive", "timeout after %ds" % h.timeout
     if res["verdict"] is None:
         tail = res["text"][-1500:]
@@ -753,6 +757,16 @@ def do_check(prop, tier, extra_engine=None):
                 ts = [t for t in chosen if t["desc"] == c["desc"]] or chosen
                 ok = [t for t in ts if repro.get(t["name"], (False,))[0]]
                 k = match_known(known, prop, h, c)
+                unreplayable = [x for x in NO_NATIVE_REPLAY_STUBS if x in h.stubs.split(",")]
+                if not ok and unreplayable and ts:
+                    # #[kani::stub] is not applied by `cargo kani playback`: a harness whose
+                    # oracle depends on such a stub (the recording MAC standing in for HMAC)
+                    # cannot reproduce natively by construction.  The solver's counterexample
+                    # (concrete values in the playback test) is reported as it is, and marked.
+                    t = ts[0]
+                    repro[t["name"]] = (True, "solver-only", "not natively replayable: the harness's oracle depends on stub %s; "
+                                        "the concrete counterexample values are in the playback test below" % ",".join(unreplayable))
+                    ok = [t]
                 if not ok:
                     inconclusive.append((n, "counterexample for %r did not reproduce natively (encoding/stub error?)" % c["desc"]))
                     continue
